@@ -311,7 +311,7 @@ def execute(case, scratch):
         out.nontrivial = cyc or via_plain or "hidden" in feats
         out.labels = sorted(set(out.labels)) + ["src:" + case.get("src", "random")] + (["cycle"] if cyc else []) + (["memento-via-plain-or-memento"] if via_plain else []) + \
             (["hidden-edge"] if "hidden" in feats else []) + (["refusal-expected"] if hidden_exec else []) + \
-            ["feat:" + f for f in feats if f in ("alias-or-wrapper", "two-modules", "explicit-version", "hidden-to-explicit", "hidden-via-clone", "call-via-clone", "package-init-module")] + \
+            ["feat:" + f for f in feats if f in ("declared-dependency", "alias-or-wrapper", "two-modules", "explicit-version", "hidden-to-explicit", "hidden-via-clone", "call-via-clone", "package-init-module")] + \
             (["evolved-in-process"] if p2 is not None else []) + (["roots-through-chained-modifiers"] if case.get("chained") else [])
         out.nt_key = prog
         out.render = {"src": case.get("src"), "files": {k: v[v.index("return w") + 10:] for k, v in progs.render_files(prog).items() if v}}
@@ -338,7 +338,7 @@ def strategy(thorough):
     from hypothesis import strategies as st
     evolve = st.integers(0, 3).flatmap(lambda i: st.none() if i == 0 else st.builds(lambda e, w: dict(e, which=w), progs.edit_strategy(), st.integers(0, 7)))
     return st.builds(lambda p, ev, ch: {"program": p, "src": "random", "evolve": ev, "chained": ch},
-                     progs.program_strategy(max_fns=8 if thorough else 6, allow_explicit=True, allow_cluster=True, allow_init=True), evolve, st.booleans())
+                     progs.program_strategy(max_fns=8 if thorough else 6, allow_explicit=True, allow_cluster=True, allow_init=True, allow_declared=True), evolve, st.booleans())
 
 
 def run_shard(ctx):
